@@ -647,6 +647,20 @@ def _regroup_gene(o, keep):
                         parent_or_seq_chunk_parent=_own_parent(o, keep))
 
 
+def _regroup_gene_reversed(o, keep):
+    from inscripta.biocantor.gene.gene import GeneInterval
+
+    return GeneInterval(transcripts=list(o.transcripts)[::-1], gene_id="regrouped", gene_type=o.gene_type, sequence_name=o.sequence_name,
+                        parent_or_seq_chunk_parent=_own_parent(o, keep))
+
+
+def _regroup_fc_reversed(o, keep):
+    from inscripta.biocantor.gene.feature import FeatureIntervalCollection
+
+    return FeatureIntervalCollection(feature_intervals=list(o.feature_intervals)[::-1], feature_collection_id="regrouped", sequence_name=o.sequence_name,
+                                     parent_or_seq_chunk_parent=_own_parent(o, keep))
+
+
 def _gene_of_transcript(o, keep):
     from inscripta.biocantor.gene.gene import GeneInterval
 
@@ -788,6 +802,8 @@ ANNOTATION_COLLECTION_OPS += [
 ]
 
 GENE_OPS += [S("GeneInterval(transcripts=self.transcripts)", _regroup_gene, "bool", result="gene", weight=1.2)]
+GENE_OPS += [S("GeneInterval(transcripts=reversed(self.transcripts))", _regroup_gene_reversed, "bool", result="gene", weight=1.2)]
+FEATURE_COLLECTION_OPS += [S("FeatureIntervalCollection(feature_intervals=reversed(self.feature_intervals))", _regroup_fc_reversed, "bool", result="feature_collection", weight=1.0)]
 TRANSCRIPT_OPS += [S("GeneInterval(transcripts=[self])", _gene_of_transcript, "bool", result="gene", weight=1.0)]
 FEATURE_COLLECTION_OPS += [S("FeatureIntervalCollection(feature_intervals=self.feature_intervals)", _regroup_fc, "bool", result="feature_collection", weight=1.2)]
 FEATURE_OPS += [S("FeatureIntervalCollection(feature_intervals=[self])", _fc_of_feature, "bool", result="feature_collection", weight=1.0)]
